@@ -35,6 +35,8 @@ def species_name(draw, fmt, elements):
             return ELECTRON[fmt]
         if fmt in ("krome", "uclchem", "naunet") and draw(st.integers(0, 9)) == 0:
             return "#" + draw(st.sampled_from(["CO", "H2O", "H2", "CH4", "H"]))  # ice species carry the '#' prefix
+        if fmt == "leeds" and draw(st.integers(0, 9)) == 0:
+            return "G" + draw(st.sampled_from(["CO", "H2O", "H2", "CH4", "H"]))  # the Leeds format writes ice species with 'G'
         sp = draw(M.gas_molecule(elements, max_tokens=3, allow_label=(fmt in ("kida", "naunet")), charges=(0, 0, 0, 1, -1, 2)))
         n = M.spell(sp)
         if len(n) <= lim:
